@@ -14,7 +14,7 @@ DELIMS = {
 }
 import re
 QUOTED_CHARSET_RE = re.compile(r"(?:[A-Za-z0-9_.~/-]|%[0-9A-Fa-f]{2})*\Z")
-RAW_CTRL = ["\n", "\x7f", "\x00", "\x85"]  # raw control characters (C14 only: URL-level functions strip them first)
+RAW_CTRL = ["\n", "\x7f", "\x00", "\x85", "\xa0", "\u3000", "%e2%82%aC", "%Fe"]  # raw control / space-like characters (C14 only: URL-level functions strip them first), escapes whose two hex digits differ in case
 CONTROLS = [chr(c) for c in list(range(0, 32)) + list(range(0x7F, 0xA0))]
 
 
